@@ -6,22 +6,29 @@
    resolve to the classes they mean.
 
    A module is a list of top-level statements in source order (the position is the line); names are numbers:
-   0 = the helper names, S k = class K<k>.  Executable definitions only. *)
+   0..4 = the helper names dataclass, field, KW_ONLY, InitVar, ClassVar (each may reach a module by its own route: bound
+   directly to the stdlib module - `from dataclasses import X [as Y]`, `import dataclasses [as dc]` + `dc.X` are all one hop -,
+   re-exported by a module of the package, or star-imported), 5 + k = class K<k>.  Executable definitions only. *)
 From Coq Require Import List Arith Bool ZArith String.
 From Verif Require Import Lib.Sexp Model.C18_dataclass.
 Import ListNotations.
 Open Scope list_scope. Open Scope nat_scope.
 
 Inductive lstmt :=
-| LStd                       (* from dataclasses import dataclass, field, KW_ONLY, InitVar; import dataclasses *)
+| LStd (hs : list nat)       (* the helper names hs bound directly to dataclasses / typing (any one-hop spelling) *)
+| LFromH (m : nat) (h : nat) (* from <module m> import <helper h>: a re-export *)
 | LFrom (m : nat) (k : nat)  (* from <module m> import K<k> *)
 | LStar (m : nat)            (* from <module m> import * *)
 | LClass (k : nat).          (* class K<k>(...) *)
 Record lmod := mklmod { l_stmts : list lstmt; l_all : option (list nat) }.    (* __all__ = ["K<k>", ...] if any *)
 Definition layout := list lmod.
 
-Definition helper : nat := 0.
-Definition cname (k : nat) : nat := S k.
+Definition helper : nat := 0.            (* dataclass *)
+Definition h_field : nat := 1.
+Definition h_kwonly : nat := 2.
+Definition h_initvar : nat := 3.
+Definition h_classvar : nat := 4.
+Definition cname (k : nat) : nat := 5 + k.
 
 (* a member of a module: an object defined there, an alias to the dataclasses module (external, never loaded), or an
    alias to member n of module m *)
@@ -40,7 +47,8 @@ Fixpoint lookup_e (n : nat) (sc : scope) : option entry :=
 Fixpoint visit_from (line : nat) (l : list lstmt) (sc : scope) (stars : list (nat * nat)) : scope * list (nat * nat) :=
   match l with
   | [] => (sc, stars)
-  | LStd :: r => visit_from (S line) r (upd e_name sc (mke helper BStd line)) stars
+  | LStd hs :: r => visit_from (S line) r (fold_left (fun acc h => upd e_name acc (mke h BStd line)) hs sc) stars
+  | LFromH m h :: r => visit_from (S line) r (upd e_name sc (mke h (BAlias m h) line)) stars
   | LFrom m k :: r => visit_from (S line) r (upd e_name sc (mke (cname k) (BAlias m (cname k)) line)) stars
   | LClass k :: r => visit_from (S line) r (upd e_name sc (mke (cname k) (BDef k) line)) stars
   | LStar m :: r => visit_from (S line) r sc (stars ++ [(line, m)])
@@ -50,7 +58,7 @@ Definition visit (md : lmod) : scope * list (nat * nat) := visit_from 0 (l_stmts
 (* is_wildcard_exposed: listed in __all__ if there is one, else every member (no generated name starts with `_`) *)
 Definition exposed (md : lmod) (e : entry) : bool :=
   match l_all md with
-  | Some ks => match e_name e with 0 => false | S k => existsb (Nat.eqb k) ks end
+  | Some ks => Nat.leb 5 (e_name e) && existsb (Nat.eqb (e_name e - 5)) ks
   | None => true
   end.
 
@@ -96,11 +104,12 @@ Definition scope_at_event (expanded : bool) (L : layout) (m : nat) : scope :=
 
 (* Expr.canonical_path of the decorator name: recognised iff still the direct import (an alias to an alias into the
    never-loaded `dataclasses` resolves to the path of its first hop, e.g. pkg.ma.dataclass) *)
-Definition recognised (expanded : bool) (L : layout) (m : nat) : bool :=
-  match lookup_e helper (scope_at_event expanded L m) with
+Definition recognised_h (h : nat) (expanded : bool) (L : layout) (m : nat) : bool :=
+  match lookup_e h (scope_at_event expanded L m) with
   | Some e => match e_bind e with BStd => true | _ => false end
   | None => false
   end.
+Definition recognised := recognised_h helper.
 
 (* modules_collection.get_member(canonical path of a base name).final_target: follow the aliases *)
 Fixpoint resolve (fuel : nat) (expanded : bool) (L : layout) (m n : nat) : option nat :=
